@@ -146,6 +146,28 @@ def diag_batched(S, kernel, b, n, d):
         S.prove_eq(dg, want, "diag=True = diagonal of the full matrix (batch %d, n %d)" % (b, n))
 
 
+def diag_param_batch(S, kernel, b, n, d):
+    """diag=True of a kernel with its own batch shape (b,) on UN-batched inputs (including b == n) = diagonals of the full
+       batched matrix"""
+    bsz = torch.Size([b])
+    k = {"rbf": lambda: K.RBFKernel(batch_shape=bsz), "scale_rq": lambda: K.ScaleKernel(K.RQKernel(batch_shape=bsz), batch_shape=bsz),
+         "linear": lambda: K.LinearKernel(batch_shape=bsz), "poly": lambda: K.PolynomialKernel(2, batch_shape=bsz)}[kernel]()
+    for p in k.parameters():
+        p.requires_grad_(False)
+    declare_params(S, k, "p_", scale=0.4)
+    x = S.randn(n, d, scale=0.7); S.sym_tensor(x, "x")
+    with S.mode():
+        with gpytorch.settings.lazily_evaluate_kernels(False):
+            D = as_sym_arr(SH.get(dense(k(x, x)))).copy()
+        dg = S.must_not_raise("diag=True with kernel batch (%d,) on un-batched inputs" % b, lambda: k(x, x, diag=True))
+        want = np.diagonal(D, axis1=-2, axis2=-1)
+        S.check_concrete(tuple(dg.shape) == want.shape, "diag=True shape (kernel batch %d, n %d)" % (b, n), "%s vs %s" % (tuple(dg.shape), want.shape))
+        if tuple(dg.shape) == want.shape:
+            S.prove_eq(dg, want, "diag=True = diagonals of the full batched matrix (kernel batch %d, n %d)" % (b, n))
+        lz = k(x, x)
+        S.prove_eq(lz.diagonal(dim1=-1, dim2=-2), want, "lazy .diagonal() (kernel batch %d, n %d)" % (b, n))
+
+
 def active_dims(S, kernel, batch):
     """active_dims restricts a kernel to exactly those input columns (also batched, kernel[i], expand_batch)"""
     bs = (batch,) if batch else ()
@@ -190,6 +212,9 @@ def scenarios(tier, seed):
     for kern in ("rbf", "scale_rq"):
         add("diag_batched", kernel=kern, b=3, n=3, d=2)
         add("diag_batched", kernel=kern, b=2, n=3, d=1)
+    for kern in ("rbf", "scale_rq", "linear", "poly"):
+        add("diag_param_batch", kernel=kern, b=3, n=3, d=2)
+        add("diag_param_batch", kernel=kern, b=2, n=3, d=1)
     for kern in ("rbf", "rq", "scale_rbf"):
         add("active_dims", kernel=kern, batch=0)
         add("active_dims", kernel=kern, batch=2)
